@@ -217,7 +217,7 @@ theorem authCore_some (C : Crypto) (sk : Bytes) (cache : Cache) (rand ct : Bytes
       else match decryptInfo C ⟨fit 32 secret, rand, ct⟩ now with
         | .ok info => ((G.keyOf rand, now / 1000000000) :: cache.filter (fun e => decide (e.1 ≠ G.keyOf rand)), .ok info)
         | .error e => ((G.keyOf rand, now / 1000000000) :: cache.filter (fun e => decide (e.1 ≠ G.keyOf rand)), .badDecrypt e) := by
-  simp only [authCore, hdh, register]
+  simp only [authCore, authFrag, hdh, register]
   rfl
 
 /-- whether `decryptClientInfo` succeeds, in terms of what opens -/
